@@ -61,6 +61,8 @@ struct Session {
   State state;
   DepsLog log;
   Rule* rule = nullptr;
+  Rule* plain = nullptr;          // a rule without a deps binding: the statement (or its file) supplies it
+  BindingEnv* subscope = nullptr; // a subninja-like file scope with `deps = msvc`
   Session() {
     rule = new Rule("cc");
     EvalString c; c.AddText("cc");
@@ -68,6 +70,12 @@ struct Session {
     EvalString d; d.AddText("gcc");
     rule->AddBinding("deps", d);
     state.bindings_.AddRule(std::unique_ptr<const Rule>(rule));
+    plain = new Rule("plain");
+    EvalString c2; c2.AddText("cc");
+    plain->AddBinding("command", c2);
+    state.bindings_.AddRule(std::unique_ptr<const Rule>(plain));
+    subscope = new BindingEnv(&state.bindings_);
+    subscope->AddBinding("deps", "msvc");
   }
 };
 }  // namespace
@@ -84,7 +92,17 @@ static int probe_depslog(int, char**) {
     } else if (op == "live") {
       std::string outs; is >> outs;
       for (auto& o : SplitHex(outs)) {
-        Edge* e = s->state.AddEdge(s->rule);
+        // where the statement gets its `deps` from: the rule, its own block, or the file it is written in
+        unsigned h = 0; for (unsigned char ch : o) h = h * 131 + ch;
+        Edge* e = s->state.AddEdge(h % 3 == 0 ? s->rule : s->plain);
+        if (h % 3 == 1) {
+          e->env_ = new BindingEnv(&s->state.bindings_);
+          e->env_->AddBinding("deps", "gcc");
+          e->env_is_enclosing_scope_ = false;
+        } else if (h % 3 == 2) {
+          e->env_ = s->subscope;
+          e->env_is_enclosing_scope_ = true;
+        }
         std::string err;
         s->state.AddOut(e, o, 0, &err);
       }
